@@ -152,7 +152,13 @@ def _check_unrestriction(ctx, cu, mo_cls):
         return Rec(mo_cls, kind=kind, norba=3, norbb=3, occs=(sym_array("o", (n,)) if kind == "unrestricted" else o), coeffs=sym_array("c", (2, n)) if coeffs else None, energies=sym_array("e", (n,)) if energies else None, irreps=[chr(65 + i) for i in range(n)] if irreps else None, occs_aminusb=d if kind == "restricted" else None)
 
     where = f"{cu.module.relpath}:{cu.lineno}"
-    cases = [("explicit occs_aminusb", dict()), ("missing optional arrays", dict(coeffs=False, energies=False, irreps=False)), ("no occupations", dict(occs=None, aminusb=None))]
+    cases = [("explicit occs_aminusb", dict()), ("no occupations", dict(occs=None, aminusb=None))]
+    import itertools as _it
+
+    for hc, he, hi in _it.product((True, False), repeat=3):
+        if not (hc and he and hi):
+            cases.append((f"optional arrays present: coeffs={hc}, energies={he}, irreps={hi}", dict(coeffs=hc, energies=he, irreps=hi)))
+            cases.append((f"no occupations; coeffs={hc}, energies={he}, irreps={hi}", dict(occs=None, aminusb=None, coeffs=hc, energies=he, irreps=hi)))
     for occs in ([2.0, 1.0, 0.0], [2.0, 2.0, 0.0], [1.8, 0.2, 0.0], [1.0, 1.0, 1.0], [0.9999999, 1.0000001, 0.0], [2.0, 1.0 - 1e-9, 1e-9], [2.0, 1.0 + 1e-11, 1.0 - 1e-11], [2.0, 1.0 - 1e-5, 1e-5]):
         cases.append((f"heuristic occupations {occs}", dict(occs=occs, aminusb=None)))
     cases.append(("explicit occs_aminusb, beta majority [1,1,0] / [-1,-1,0]", dict(occs=[1.0, 1.0, 0.0], aminusb=[-1.0, -1.0, 0.0])))
@@ -163,6 +169,9 @@ def _check_unrestriction(ctx, cu, mo_cls):
             ref = src.clone()
             try:
                 new = ev().run_free(cu, [src], {})
+            except Raised as exc:
+                ctx.violate("R3", f"restricted -> unrestricted ({label}): convert_to_unrestricted raises {exc.cls}", cu, cu.node, construct=f"unrestriction {label}: raises {exc.cls}")
+                continue
             except NotSymbolic as exc:
                 if kw.get("aminusb", "sym") == "sym" and kw.get("occs", "sym") == "sym":
                     # a decision on symbolic occupations (e.g. an ordering): the constant patterns decide instead
